@@ -109,8 +109,12 @@ class Gen:
         return self.rng.choice(plain or PLAIN)
 
     def text(self) -> str:
-        """Text content: may contain anything; whitespace is normalised by the reader."""
+        """Text content: may contain anything; XML whitespace is normalised by the reader."""
         s = self.s()
+        if self.chance(self.p['special'] * 0.3):
+            # spaces that are content, not XML whitespace
+            s = self.rng.choice(['10\xa0km', '全角\u3000スペース', 'ls\u2028ps', 'nel\x85x',
+                                 'thin\u2009sp', 'a\u200bb'])
         if self.chance(0.3):
             s = s + ' ' + self.s()
         if self.chance(self.p.get('p_long', 0.0)):
